@@ -570,7 +570,7 @@ func main() {
 	clk.Install()
 	root := rng.New(a.Seed)
 	rep := emit.NewReport("C05", a.Seed, a.Tier)
-	rep.Rule = "1-2 resources x 1-2 hotspot QPS rules (reject / throttling; thresholds 0..3000 and 9e15, bursts, durations 1-5 s, max queueing 0-5000 ms, ParamIndex 0/1/-1/-2/3, ParamKey, ParamsMaxCapacity 0(default)/1-4, specific items incl. 0 and negative), 18-47 entries over 1-4 values of kinds int/int64/int32/uint8/string/bool/float64/float32/struct (plus nil, -0.0, NaN) with clock ticks at 0, +-1 around the spacing and the duration, idle gaps of several durations; batches 0,1,2,3,T,T+1,M,M+1,2^32-1; sleeps advancing the clock or not. One case in ten is a reject-mode trickle (one request per duration+1 .. duration*(T+burst)/T ms for 3-10 durations) followed by a spike of more than 2*(T+burst) requests within a few ms; one in ten is a throttling-mode history of queued runs separated by idle gaps of 2-40 spacings. Plus, monitor only: 2 big-capacity cases (ParamsMaxCapacity 25000 / 40000, 20001 / 20003 distinct values, the oldest requested again at once) and 80 reload cases (the specific-item table replaced by one differing in one key or threshold, zero thresholds included; first requests of fresh values afterwards). One case in three is driven by a caller that re-uses ONE argument slice and ONE attachment map for all requests and overwrites them after every Entry; one in three has a reload of the unchanged rules in progress (LoadRules / LoadRulesOfResource with a probe rule whose controller generator runs the next 0-5 operations, and fails in a third of them): decisions, caches and controller lists must be as without it. Non-trivial = at least one admission and one rejection, or at least one requested wait; distinct by full input."
+	rep.Rule = "1-2 resources x 1-2 hotspot QPS rules (reject / throttling; thresholds 0..3000 and 9e15, bursts, durations 1-5 s, max queueing 0-5000 ms, ParamIndex 0/1/-1/-2/3, ParamKey, ParamsMaxCapacity 0(default)/1-4, specific items incl. 0 and negative), 18-47 entries over 1-4 values of kinds int/int64/int32/uint8/string/bool/float64/float32/struct (plus nil, -0.0, NaN) with clock ticks at 0, +-1 around the spacing and the duration, idle gaps of several durations; batches 0,1,2,3,T,T+1,M,M+1,2^32-1; sleeps advancing the clock or not. One case in ten is a reject-mode trickle (one request per duration+1 .. duration*(T+burst)/T ms for 3-10 durations) followed by a spike of more than 2*(T+burst) requests within a few ms; one in ten is a throttling-mode history of queued runs separated by idle gaps of 2-40 spacings. Plus, monitor only: 2 big-capacity cases (ParamsMaxCapacity 25000 / 40000, 20001 / 20003 distinct values, the oldest requested again at once) and 80 reload cases (the specific-item table replaced by one differing in one key or threshold, zero thresholds included; first requests of fresh values afterwards). One case in three is driven by a caller that re-uses ONE argument slice and ONE attachment map for all requests and overwrites them after every Entry; one in three has a reload of the unchanged rules in progress (LoadRules / LoadRulesOfResource with a probe rule whose controller generator runs the next 0-5 operations, and fails in a third of them): decisions, caches and controller lists must be as without it. Plus, monitor only, 240 field-change reload cases: a warmed-up QPS rule is reloaded (LoadRules / LoadRulesOfResource) with exactly one of capacity, duration, threshold, burst, specific items, ParamIndex, ParamKey changed and then gets round-robin traffic on 1-4 values (more than the old capacity when it was raised): the per-value envelope / spacing afterwards is the NEW rule's, with at most the old threshold+burst carried over where the documented statistic-reuse rule keeps the counters. Non-trivial = at least one admission and one rejection, or at least one requested wait; distinct by full input."
 	nCorr := a.Pick(a.N, 230, 6000)
 	nMon := a.Pick(a.Mon, 3000, 60000)
 	if a.Search {
